@@ -121,6 +121,8 @@ type PosArg struct {
 	// UnmSlice (with NamedSlice): the named slice type is AccList, which also implements Unmarshaler (each token is
 	// handed to UnmarshalFlag, which appends it): still a list that takes every remaining argument
 	UnmSlice bool
+	// Embedded (with NamedSlice, not UnmSlice): the field is embedded - declared by its type name StrList alone
+	Embedded bool
 	// ExtraLong: a long: tag on the positional field (it must not turn the field into an option)
 	ExtraLong string
 	idx       int
@@ -446,6 +448,10 @@ func (d *Decl) structType(g *Grp, cmd *Cmd) reflect.Type {
 			var pfs, pfs2 []reflect.StructField
 			for i, a := range cmd.Pos.Args {
 				sf := reflect.StructField{Name: a.Field, Type: a.GoType(), Tag: reflect.StructTag(a.Tag())}
+				if a.Embedded {
+					// an embedded field of a named list type: an exported, settable field like any other
+					sf.Anonymous = true
+				}
 				if cmd.Pos.Split > 0 && i >= cmd.Pos.Split {
 					a.idx = len(pfs2)
 					pfs2 = append(pfs2, sf)
